@@ -374,7 +374,17 @@ struct TemplateGen {
                     static const char *forms[] = {"<else if case=", "<elseif case="};
                     s += forms[r.below(2)] + std::string(1, q) + expr(1) + q + (r.chance(1, 3) ? " />" : ">") + block(depth - 1);
                 }
-                if (r.chance(1, 2)) s += std::string(r.chance(1, 2) ? "<else>" : "<else />") + block(depth - 1);
+                if (r.chance(1, 2)) {
+                    if (r.chance(1, 8)) {
+                        // something between "<else" and its '>': attributes nobody defined, or another tag's opening
+                        static const char *junk[] = {" {var:", " {raw:", " {math:1+", " {svar:", " <loop value=\"z\"", " x=\"y\"", " {", " case=\"1\"", " {var:name}", " {math:2*2} "};
+                        std::string        j      = junk[r.below(sizeof(junk) / sizeof(junk[0]))];
+                        if (j.back() == ':') j += scalar_path() + "}";
+                        if (j.back() == '+') j += "1}";
+                        s += "<else" + j + ">" + block(depth - 1);
+                    } else
+                        s += std::string(r.chance(1, 2) ? "<else>" : "<else />") + block(depth - 1);
+                }
                 return s + "</if>";
             }
             default: {
